@@ -96,7 +96,7 @@ func c02Run(c *Ctx) {
 		}
 	}
 	// 2b. the same operators applied directly to literal operands (no variable in between)
-	lits := []string{"nil", True(), False(), "0", "1", "0.5", "63", "64", "3", `""`, `"a"`, `"5"`, `"\u09e6\u09eb"`, `"a b"`, `"16cm"`, `"0 km"`, "[]", "[1]", "{}", "{k: 1}", "9223372036854775808", B["len"]}
+	lits := []string{"nil", True(), False(), "0", "1", "0.5", "63", "64", "3", `""`, `"a"`, `"5"`, "\"\u09e6\u09eb\"", `"a b"`, `"16cm"`, `"0 km"`, "[]", "[1]", "{}", "{k: 1}", "9223372036854775808", B["len"]}
 	for _, a := range lits {
 		for _, op := range c02UnOps {
 			if c.Mine() {
@@ -115,7 +115,7 @@ func c02Run(c *Ctx) {
 		}
 	}
 	// 2c. numeric-looking strings: an operator that accepts them must see the number s * 1 gives
-	strs := []string{`"0"`, `"-0"`, `"0.0"`, `"\u09e6"`, `"5"`, `"-3"`, `"2.5"`, `"64"`, `"-1"`, `"1e3"`, `"007"`, `" 4"`, `"0x10"`, `("" + 0)`, `("" + (0 - 2))`, `"9223372036854775808"`, `"1.5"`, `"inf"`, `"NaN"`}
+	strs := []string{`"0"`, `"-0"`, `"0.0"`, "\"\u09e6\"", `"5"`, `"-3"`, `"2.5"`, `"64"`, `"-1"`, `"1e3"`, `"007"`, `" 4"`, `"0x10"`, `("" + 0)`, `("" + (0 - 2))`, `"9223372036854775808"`, `"1.5"`, `"inf"`, `"NaN"`}
 	partners := []string{"1", "0", "7", "(-2)", "2.5", "(1 << 40)"}
 	for _, sv := range strs {
 		for _, op := range []string{"-", "*", "/", "%", "**", "<", "<=", ">", ">=", "&", "|", "^", "<<", ">>"} {
